@@ -83,7 +83,7 @@ PROPS = {
     ),
     "C13": dict(
         modules=["Copia.Props.C13", "Copia.Props.C13b", "Copia.Props.C13c"], namespaces=["Copia.C13"], runner="bb", bb_module="bb_hubsync",
-        assumptions=_HUB_ASSUME + ["the hub side is the sequential CAS-Put semantics (its atomicity under concurrency is C03); local trees without a top-level `.copia` directory",
+        assumptions=_HUB_ASSUME + ["the hub side is the sequential CAS-Put semantics (its atomicity under concurrency is C03); a local tree with a top-level `.copia` directory is refused by the (repaired) hub and hub-sync reports the error",
                                    "interference is modelled per Put (stale `expected`); an environment that deletes files is outside 'still retrievable'"],
         trusted_base=_HUB_TB + ["tools/sshstub/ssh and tools/sshrelay (pausing relay) as SSH stand-ins"],
         level_text="Kernel-checked theorems over the client program on the hub's CAS semantics, for ALL hub trees and local trees: without interference every local file ends up on the hub at its path, other paths are untouched, "
